@@ -69,6 +69,9 @@ def run_case(case):
             tp_type = rr.choice([0, 1])
             ain = min(p['a'] for p in sysd['planets'])
             inner = rr.random() < 0.5          # test particles inside the innermost planet feel the planets' perturbations much more strongly than distant ones
+            pin0_ = min(sysd['planets'], key=lambda q_: q_['a'])
+            if inner and (pin0_['a'] * (1 - pin0_.get('e', 0.0)) - 6 * pin0_['a'] * (pin0_['m'] / (3 * mstar)) ** (1.0 / 3)) / 1.1 / 1.25 < pin0_['a'] / 3.5:
+                inner = False          # no room inside an eccentric / massive innermost planet for a well separated orbit: place them outside
             for k in range(rr.randint(1, 2)):
                 a_tp = ain / (1.7 + 0.4 * k) if inner else aout * (1.7 + 0.5 * k)
                 # ... but still well separated from it: at least 6 Hill radii between the test particle's orbit (e <= 0.1) and the pericentre
